@@ -600,10 +600,16 @@ func EnumerateFaults(a, b []byte, thorough bool, emit func(f fault) bool) {
 		for i := 0; i <= n; i++ {
 			js := []int{i}
 			if thorough {
+				// all offsets of the other record for short records, every 5th otherwise
 				js = js[:0]
-				for j := 0; j <= len(b); j++ {
+				step := 1
+				if n*len(b) > 64*64 {
+					step = 5
+				}
+				for j := i % step; j <= len(b); j += step {
 					js = append(js, j)
 				}
+				js = append(js, i)
 			} else if i <= len(b) {
 				js = append(js, len(b)-((n-i)%(len(b)+1)))
 			}
@@ -739,27 +745,6 @@ func (s *StoreSim) StoreRecord(seed uint64, idx int, thorough bool) (*Violation,
 	})
 	if viol != nil {
 		return viol, vcase
-	}
-	// the instance must stay healthy: the undamaged records still decode as alone
-	for _, good := range [][]byte{rec, rec2} {
-		if good == nil {
-			continue
-		}
-		s.St.HealthChecks++
-		exp, eerr, epan := soloUnmarshal(cfg, ti.T, good)
-		InstallStoreHooks()
-		if epan != "" {
-			continue
-		}
-		out := reflect.New(ti.T)
-		err := s.inst(cfg).Unmarshal(append([]byte(nil), good...), out.Interface())
-		c := &StoreCase{Type: tn, Reader: tn, Mode: "unmarshal", Cfg: cfg, Fault: "none (health check after a batch of damaged records)", Input: hex.EncodeToString(good), Present: "exact"}
-		if errText(err) != eerr {
-			return violStore("unhealthy", "", fmt.Sprintf("after decoding damaged records the instance decodes a valid record with error %q (alone: %q)", errText(err), eerr), c), c
-		}
-		if ok, path := world.Equal(out.Elem(), exp); !ok && err == nil {
-			return violStore("unhealthy", "", "after decoding damaged records the instance decodes a valid record differently, at "+path, c), c
-		}
 	}
 	return nil, nil
 }
